@@ -8,7 +8,11 @@ letter = {"mutA": "J", "mutB": "K"}
 for d in sorted(glob.glob(SRC + "/C[0-9][0-9]-out/*mut*")):
     prop = os.path.basename(os.path.dirname(d)).split("-")[0]
     mut = os.path.basename(d)
+    if mut not in letter or not os.path.isdir(d):
+        continue
     sid = f"{prop}-{letter[mut]}"
+    if not os.path.exists(d + "/confirm.json"):
+        print("skip (no confirm.json yet)", d); continue
     conf = json.load(open(d + "/confirm.json"))
     if conf.get("status") != "CONFIRMED":
         print("skip (not confirmed)", d); continue
